@@ -343,6 +343,35 @@ func (p *pkgInfo) scan(u *unit) {
 		}
 		return true
 	})
+	// `defer x.lock()()`: the helper takes the lock and returns the function that releases it; held from here to the end of the unit
+	for _, st := range u.body.List {
+		ds, ok := st.(*ast.DeferStmt)
+		if !ok {
+			continue
+		}
+		inner, ok := ds.Call.Fun.(*ast.CallExpr)
+		if !ok {
+			continue
+		}
+		cu, ok := p.units[p.callee(u, inner)]
+		if !ok || cu.body == nil {
+			continue
+		}
+		for _, cs := range cu.body.List {
+			if es, ok := cs.(*ast.ExprStmt); ok {
+				if call, ok := es.X.(*ast.CallExpr); ok {
+					if l, op, ok := lockCall(p, cu, call); ok {
+						switch op {
+						case "Lock":
+							u.acq = append(u.acq, acquire{l, 2, st.End(), 0})
+						case "RLock":
+							u.acq = append(u.acq, acquire{l, 1, st.End(), 0})
+						}
+					}
+				}
+			}
+		}
+	}
 	// lock acquisitions: top-level statements "X.mux.Lock()" directly followed (anywhere later at top level) by a deferred unlock
 	deferred := map[string]bool{}
 	for _, st := range u.body.List {
